@@ -91,6 +91,7 @@ def handle (s : S) (i : Nat) (j : Json) : S × List Json :=
           | "repay" => let r := repay m amt intr bal; (errName r, r.toOption.getD m, 0)
           | "accrue" => if m.borrowed = 0 then ("fail", m, 0) else ("ok", accrue m intr, 0)
           | "gift" => ("ok", { m with tv := m.tv + amt, cash := m.cash + amt }, 0)
+          | "govparams" => ("ok", m, 0)   -- a parameter update: TotalValue is vault accounting, not a governance setting
           | _ => ("bad", m, 0)
         if mres == "bad" then (s, [verdictBad i "c07.op op"]) else
         let ok := res == "ok"
@@ -135,6 +136,10 @@ def handle (s : S) (i : Nat) (j : Json) : S × List Json :=
             [verdictViol i "C07.rate_mono" (Json.mkObj [("op", op), ("rateBefore", mkInt pv.rate), ("rateAfter", mkInt iRate), ("supplyAfter", mkInt iSt.supply)])] else []) ++
           (if lender && op == "unbond" && iSt.supply > 0 && pv.cash ≤ pv.tv && !okRateUnbond pv.rate iRate pv.supply iSt.supply then
             [verdictViol i "C07.rate_mono" (Json.mkObj [("op", op), ("rateBefore", mkInt pv.rate), ("rateAfter", mkInt iRate), ("supplyAfter", mkInt iSt.supply)])] else []) ++
+          -- "a share's redemption value never falls because of other parties' actions": a governance parameter update is such an action
+          (if op == "govparams" && ok && healthy && iRate < pv.rate then
+            [verdictViol i "C07.others_unharmed" (Json.mkObj [("op", op), ("rateBefore", mkInt pv.rate), ("rateAfter", mkInt iRate),
+              ("tvBefore", mkInt pv.tv), ("tvAfter", mkInt iSt.tv)])] else []) ++
           -- C07.cap: an accepted borrow respects 10·(TV − cash + amt) ≤ 9·TV on the numbers before it, and
           -- afterwards outstanding ≤ 0.9·TV' up to the interest accrued inside the call
           (if op == "borrow" && ok &&
